@@ -35,11 +35,30 @@ def schema(pfset):
 
 
 # ---- refprint
+PF_EXTRA = set()       # ids of option states that got a print callback through the API (by path) in the case at hand
+
+
+class _D:
+    """a declaration seen with a print callback added"""
+    def __init__(self, d):
+        self.__dict__.update(d.__dict__)
+        self.cbs = d.cbs + 'r'
+
+    def has(self, f):
+        return f in self.flags
+
+    @property
+    def is_list(self):
+        return 'L' in self.flags
+
+
 def entries(sec, eff, depth, filters_of):
     """expected entries of printing section `sec` (a SecState) with effective filter `eff` (set of hidden names or None)"""
     out = []
     for o in sec.opts:
         d = o.decl
+        if id(o) in PF_EXTRA and 'r' not in d.cbs:
+            d = _D(d)
         if eff is not None and d.name in eff:
             continue
         if d.kind == 'sec':
@@ -382,6 +401,73 @@ def shard_indent(sh):
     return st.result([drv])
 
 
+# ---- print callbacks registered by path after the parse
+def shard_bypath(sh):
+    """cfg_set_print_func(cfg, "path", cb) for every value option of every section instance, addressed in every qualifier form:
+    the callback formats exactly that option of exactly that instance (and goes away again when cleared)"""
+    deadline = sh
+    drv = get_driver('asan')
+    st = ShardStats('print callbacks by path')
+    sch = schema(frozenset())
+    drv.define_schema(sch.sid, sch.spec())
+    for stext in STATES2:
+        m = reftext.meaning(sch, 0, stext)
+        assert m.verdict == ACCEPT
+        store = m.store
+        targets = []        # (path, option state)
+
+        def walk(sec, prefix):
+            for o in sec.opts:
+                d = o.decl
+                if d.kind == 'sec':
+                    for k, inst in enumerate(o.values):
+                        forms = []
+                        if d.has('T'):
+                            forms.append(d.name + b'=' + inst.title)
+                            forms.append(d.name + b"='" + inst.title + b"'")
+                        elif d.has('M'):
+                            forms.append(d.name + b'=%d' % k)
+                        if k == 0:
+                            forms.append(d.name)
+                        for f in forms:
+                            walk(inst, prefix + f + b'|')
+                elif d.kind in ('int', 'str', 'float', 'bool'):
+                    targets.append((prefix + d.name, o))
+        walk(store, b'')
+        for (path, o) in targets:
+            if time.time() > deadline:
+                st.complete = False
+                break
+            for clear in (False, True):
+                lines = ['init A %s 0' % sch.sid, 'cb_quiet 1', 'parse_buf A ' + enc(stext), 'set_pf_name A %s 1' % enc(path)]
+                if clear:
+                    lines.append('set_pf_name A %s 0' % enc(path))
+                lines.append('print A')
+                c = Case(lines)
+                r = drv.run([c])[0]
+                st.evaluations += 1
+                st.transitions += 1
+                st.validated += 1
+                script = 'schema %s %s\n%s' % (sch.sid, sch.spec(), c.script())
+                if r.status in ('crash', 'hang'):
+                    st.violation('%s:%s' % (r.status, engine.sanitizer_summary(r.info)), script, '', engine.excerpt(r.info))
+                    continue
+                outs = r.all('out ')
+                text = dec(outs[0].split(' ')[2]) if outs else b''
+                PF_EXTRA.clear()
+                if not clear:
+                    PF_EXTRA.add(id(o))
+                exp = rel(entries(store, None, 0, lambda s_: None))
+                PF_EXTRA.clear()
+                got, badline = reduce_output(text)
+                st.outcome(text)
+                st.nontriv(path + (b'!' if clear else b''))
+                if got is None or len(exp) != len(got) or not all(same(e, g) for e, g in zip(exp, got)):
+                    st.violation('print-structure:callback-by-path%s' % ('-cleared' if clear else ''), script, '\n'.join(map(str, exp)), text.decode('latin-1'))
+    st.samples.append({'registration': 'cfg_set_print_func(cfg, "sub|m=1|z", cb)', 'forms': 'unqualified first instance, =index, =title, =\'quoted title\''})
+    return st.result([drv])
+
+
 def all_instances(store):
     """every section instance below the context: [(driver reference, SecState)] in declaration / instance order"""
     out = []
@@ -555,6 +641,7 @@ def main():
         pfsets += [frozenset(c) for c in itertools.combinations(PF_SLOTS, n)]
     shards = [([p], ck.deadline) for p in pfsets]
     engine.phase(ck, 'print-callback subsets x 4 states x 64 filter combinations', shard, shards, subsets=len(pfsets))
+    engine.phase(ck, 'a print callback registered by path (every qualifier form) for every value option of every section instance x 4 states, set and cleared', shard_bypath, [ck.deadline])
     engine.phase(ck, 'cfg_print_indent at every base level 1..%d x 4 states; a chain of %d nested sections' % ((40, 24) if quick else (300, 120)), shard_indent,
                  [((40, 24) if quick else (300, 120)) + (ck.deadline,)])
     # a filter choice per section instance, independently (later instances, both branches)
